@@ -3,6 +3,9 @@
 package main
 
 import (
+	"os"
+	"runtime/debug"
+
 	"verif/harness/fw"
 	_ "verif/props/c01"
 	_ "verif/props/c02"
@@ -27,4 +30,13 @@ import (
 	_ "verif/props/selftest"
 )
 
-func main() { fw.Main() }
+func main() {
+	// Executions allocate a lot of short-lived state (vector clocks, stamps,
+	// message objects); the live heap of a worker is a few tens of MB, so a
+	// lazier collector is cheap and makes every check 1.5-2x faster.
+	if os.Getenv("GOGC") == "" {
+		debug.SetGCPercent(800)
+		debug.SetMemoryLimit(768 << 20) // soft: the collector works harder above this, per process (16 workers)
+	}
+	fw.Main()
+}
